@@ -13,6 +13,13 @@ Extracted (fail closed on any other shape):
   stored / the steps are computed; a guard-shaped statement after that point is refused.
 * `Detector.empty(reset)`         (pyxel/detectors/detector.py) -> which containers are emptied always and
   which only under `if reset:`.
+* every container's `empty()` (`Photon.empty`, `Charge.empty`, `ArrayBase.empty` / an override in `Pixel`, `Signal`,
+  `Image`; `Scene()` resp. `Scene.empty`) -> a program over the PIECES of state the container holds (Charge: `_array`
+  AND `_frame`): sequence of if / elif / else chains whose branches re-initialise pieces; the tests may only ask
+  whether a piece holds something.  The attributes assigned in each container's `__init__` must be the known ones
+  (a new data attribute is refused).  Whether the `Charge.array` property stores the array derived from the particles
+  back into `_array` (e_read_stores).  An `empty()` override in a Detector subclass (CCD / CMOS / MKID / APD) must call
+  `super().empty(reset)` first and must not touch the six containers.
 * `Detector.set_readout(times, start_time, non_destructive)` -> sr_policy: the body is the single store
   `self._readout_properties = ReadoutProperties(times=times, start_time=start_time,
   non_destructive=non_destructive)` (SRAlwaysNew), or that store under `if self._readout_properties is None:`
@@ -180,6 +187,9 @@ def _ctor_guards(fn: ast.FunctionDef) -> tuple[bool, list[str]]:
     return ndarray, guards
 
 
+scene_fresh: list = []      # set by _empty_table: Detector.empty replaces the Scene object (instead of scene.empty())
+
+
 def _empty_table(fn: ast.FunctionDef) -> tuple[list[str], list[str]]:
     if [a.arg for a in fn.args.args] != ["self", "reset"]:
         fail(fn, "Detector.empty signature")
@@ -195,10 +205,12 @@ def _empty_table(fn: ast.FunctionDef) -> tuple[list[str], list[str]]:
                     and isinstance(f.value.value, ast.Name) and f.value.value.id == "self" and f.value.attr in BUCKETS):
                 return BUCKETS[f.value.attr]
         if isinstance(st, ast.Assign) and ast.unparse(st) == "self.scene = Scene()":
+            scene_fresh.append(True)
             return "Scene"
         fail(st, "Detector.empty: unexpected statement")
 
     always, if_reset = [], []
+    scene_fresh.clear()
     for st in body_no_doc(fn):
         if isinstance(st, ast.If):
             if not (isinstance(st.test, ast.Name) and st.test.id == "reset") or st.orelse:
@@ -207,6 +219,239 @@ def _empty_table(fn: ast.FunctionDef) -> tuple[list[str], list[str]]:
         else:
             always.append(bucket_of(st))
     return always, if_reset
+
+
+# ------------------------------------------------------------------------------------------ containers
+
+# class -> (file, {data attribute -> piece}, attributes of __init__ that are not data)
+CONTAINERS = {
+    "Scene": ("pyxel/data_structure/scene.py", {"_source": "PScene"}, set()),
+    "Photon": ("pyxel/data_structure/photon.py", {"_array": "PPhoton"}, {"_num_rows", "_num_cols"}),
+    "Charge": ("pyxel/data_structure/charge.py", {"_array": "PChargeArr", "_frame": "PChargeFrame"},
+               {"_geo", "nextid", "columns", "EMPTY_FRAME"}),
+    "ArrayBase": ("pyxel/data_structure/array.py", {"_array": None}, {"_shape", "_numbytes"}),
+    "Pixel": ("pyxel/data_structure/pixel.py", {"_array": "PPixel"}, set()),
+    "Signal": ("pyxel/data_structure/signal.py", {"_array": "PSignal"}, set()),
+    "Image": ("pyxel/data_structure/image.py", {"_array": "PImage"}, set()),
+}
+BUCKET_CLASS = {"Scene": "Scene", "Photon": "Photon", "Charge": "Charge", "Pixel": "Pixel", "Signal": "Signal",
+                "Image": "Image"}
+# pieces whose empty value is None (the others: PPixel = zeros, PChargeArr = zeros, PChargeFrame = no row)
+NONE_PIECES = {"PPhoton", "PSignal", "PImage"}
+BOOKKEEPING = {"self.nextid = 0", "self._numbytes = 0"}
+ZERO = ("0", "0.0")
+
+
+def _is_reset_value(piece: str, v: ast.expr) -> bool:
+    t = ast.unparse(v)
+    if piece in NONE_PIECES:
+        return t == "None"
+    if piece == "PScene":
+        return isinstance(v, ast.Call) and ast.unparse(v.func) in ("xr.DataTree", "DataTree", "xarray.DataTree") \
+            and not v.args and all(kw.arg == "name" for kw in v.keywords)
+    if piece == "PPixel":
+        if not (isinstance(v, ast.Call) and ast.unparse(v.func) in ("np.zeros", "numpy.zeros")):
+            return False
+        shape = [ast.unparse(a) for a in v.args[:1]] + [ast.unparse(k.value) for k in v.keywords if k.arg == "shape"]
+        return shape == ["self._shape"] and all(k.arg in ("shape", "dtype") for k in v.keywords) and len(v.args) <= 1
+    if piece == "PChargeArr":
+        return t in ("np.zeros_like(self._array)", "np.zeros(self._array.shape)",
+                     "np.zeros((self._geo.row, self._geo.col), dtype=self.EXP_TYPE)",
+                     "np.zeros((self._geo.row, self._geo.col))", "np.zeros(self._array.shape, dtype=self.EXP_TYPE)")
+    if piece == "PChargeFrame":
+        return t in ("self.EMPTY_FRAME.copy()", "self.EMPTY_FRAME.copy(deep=True)",
+                     "pd.DataFrame(columns=self.columns, dtype=float)", "self._frame.iloc[0:0]")
+    return False
+
+
+def _reset_stmt(st: ast.stmt, pieces: dict) -> str | None:
+    """The piece a statement re-initialises; None for a bookkeeping statement; refuses anything else."""
+    if isinstance(st, ast.Pass) or isinstance(st, (ast.Import, ast.ImportFrom)) or ast.unparse(st) in BOOKKEEPING:
+        return None
+    if isinstance(st, ast.Expr) and isinstance(st.value, ast.Constant) and isinstance(st.value.value, str):
+        return None
+    tgt = val = None
+    if isinstance(st, ast.Assign) and len(st.targets) == 1:
+        tgt, val = st.targets[0], st.value
+    elif isinstance(st, ast.AnnAssign) and st.value is not None:
+        tgt, val = st.target, st.value
+    if tgt is not None:
+        t = ast.unparse(tgt)
+        for attr, piece in pieces.items():
+            if t == f"self.{attr}":
+                if not _is_reset_value(piece, val):
+                    fail(st, f"empty(): not a recognised empty value for {piece}")
+                return piece
+            # in-place zeroing of the charge array
+            if piece == "PChargeArr" and t in (f"self.{attr}[:]", f"self.{attr}[...]") and ast.unparse(val) in ZERO:
+                return piece
+    if isinstance(st, ast.Expr) and ast.unparse(st) in ("self._array.fill(0)", "self._array.fill(0.0)") \
+            and pieces.get("_array") == "PChargeArr":
+        return "PChargeArr"
+    fail(st, "empty(): unexpected statement")
+
+
+def _cond(test: ast.expr, pieces: dict) -> str:
+    if isinstance(test, ast.UnaryOp) and isinstance(test.op, ast.Not):
+        c = _cond(test.operand, pieces)
+        return {"CHolds": "CHoldsNot", "CHoldsNot": "CHolds"}[c.split()[0]] + " " + c.split()[1]
+    t = ast.unparse(test)
+    for attr, piece in pieces.items():
+        if piece in NONE_PIECES or piece == "PPixel":
+            if t == f"self.{attr} is None":
+                return f"CHoldsNot {piece}"
+            if t == f"self.{attr} is not None":
+                return f"CHolds {piece}"
+        if piece == "PChargeArr" and t in (f"self.{attr}.any()", f"np.any(self.{attr})", f"np.any(self.{attr} != 0)"):
+            return f"CHolds {piece}"
+        if piece == "PChargeFrame":
+            if t in (f"self.{attr}.empty", "self.frame_empty()", f"len(self.{attr}) == 0"):
+                return f"CHoldsNot {piece}"
+            if t in (f"len(self.{attr}) > 0", f"len(self.{attr}) != 0"):
+                return f"CHolds {piece}"
+    fail(test, "empty(): unknown test (only `holds something` tests of the container's own pieces are accepted)")
+
+
+def _branch(body, pieces) -> list[str]:
+    out = []
+    for st in body:
+        if isinstance(st, ast.If):
+            fail(st, "empty(): nested if")
+        p = _reset_stmt(st, pieces)
+        if p is not None:
+            out.append(p)
+    return out
+
+
+def _cprog(fn: ast.FunctionDef, pieces: dict) -> list:
+    """[[(cond, [piece])]]: the chains of an empty() method, in order."""
+    if [a.arg for a in fn.args.args] != ["self"] or fn.args.vararg or fn.args.kwarg or fn.args.kwonlyargs:
+        fail(fn, "empty() signature")
+    prog = []
+    for st in body_no_doc(fn):
+        if isinstance(st, ast.If):
+            chain, node = [], st
+            while True:
+                chain.append((_cond(node.test, pieces), _branch(node.body, pieces)))
+                if len(node.orelse) == 1 and isinstance(node.orelse[0], ast.If):
+                    node = node.orelse[0]
+                    continue
+                if node.orelse:
+                    chain.append(("CTrue", _branch(node.orelse, pieces)))
+                break
+            prog.append(chain)
+        elif isinstance(st, ast.Return) and st.value is None:
+            fail(st, "empty(): early return")
+        else:
+            p = _reset_stmt(st, pieces)
+            if p is not None:
+                prog.append([("CTrue", [p])])
+    return prog
+
+
+def _class(tree: ast.Module, name: str) -> ast.ClassDef:
+    c = [n for n in tree.body if isinstance(n, ast.ClassDef) and n.name == name]
+    if len(c) != 1:
+        fail(None, f"class {name}: found {len(c)}")
+    return c[0]
+
+
+def _check_init_attrs(cls: ast.ClassDef, pieces: dict, other: set) -> None:
+    """The attributes __init__ creates are the known ones: a new data attribute would be a piece of state the
+    model does not carry (and empty() might not reset)."""
+    inits = [n for n in cls.body if isinstance(n, ast.FunctionDef) and n.name == "__init__"]
+    if len(inits) != 1:
+        fail(cls, f"{cls.name}.__init__: found {len(inits)}")
+    for n in ast.walk(inits[0]):
+        tg = []
+        if isinstance(n, ast.Assign):
+            tg = n.targets
+        elif isinstance(n, (ast.AnnAssign, ast.AugAssign)):
+            tg = [n.target]
+        for t in tg:
+            if isinstance(t, ast.Attribute) and isinstance(t.value, ast.Name) and t.value.id == "self":
+                if t.attr not in pieces and t.attr not in other:
+                    fail(n, f"{cls.name}.__init__ creates an attribute the model does not know")
+
+
+def _container_prog(repo: Path, cname: str) -> list:
+    rel, pieces, other = CONTAINERS[cname]
+    cls = _class(parse(repo, rel), cname)
+    own = [n for n in cls.body if isinstance(n, ast.FunctionDef) and n.name == "empty"]
+    if cname in ("Pixel", "Signal", "Image"):
+        if [ast.unparse(b) for b in cls.bases] != ["ArrayBase"]:
+            fail(cls, f"{cname} must derive from ArrayBase only")
+        inits = [n for n in cls.body if isinstance(n, ast.FunctionDef) and n.name == "__init__"]
+        if len(inits) != 1 or [ast.unparse(x) for x in body_no_doc(inits[0])] != ["super().__init__(shape=(geo.row, geo.col))"]:
+            fail(cls, f"{cname}.__init__ must only call ArrayBase.__init__")
+        brel, bpieces, bother = CONTAINERS["ArrayBase"]
+        base = _class(parse(repo, brel), "ArrayBase")
+        _check_init_attrs(base, bpieces, bother)
+        if not own:
+            own = [n for n in base.body if isinstance(n, ast.FunctionDef) and n.name == "empty"]
+    else:
+        if cls.bases:
+            fail(cls, f"{cname} must not have a base class")
+        _check_init_attrs(cls, pieces, other)
+    if len(own) != 1:
+        fail(cls, f"{cname}.empty: found {len(own)}")
+    return _cprog(own[0], pieces)
+
+
+def _scene_fresh(repo: Path) -> list:
+    """`self.scene = Scene()`: a new object; its constructor must create the one data attribute, empty."""
+    rel, pieces, other = CONTAINERS["Scene"]
+    cls = _class(parse(repo, rel), "Scene")
+    _check_init_attrs(cls, pieces, other)
+    init = [n for n in cls.body if isinstance(n, ast.FunctionDef) and n.name == "__init__"][0]
+    if [a.arg for a in init.args.args] != ["self"]:
+        fail(init, "Scene.__init__ signature")
+    got = [_reset_stmt(st, pieces) for st in body_no_doc(init)]
+    if [g for g in got if g] != ["PScene"]:
+        fail(init, "Scene.__init__ must create an empty _source")
+    return [[("CTrue", ["PScene"])]]
+
+
+def _read_stores(repo: Path) -> bool:
+    """Does reading the property Charge.array store the array derived from the particles into _array?"""
+    rel, _, _ = CONTAINERS["Charge"]
+    cls = _class(parse(repo, rel), "Charge")
+    fns = [n for n in cls.body if isinstance(n, ast.FunctionDef) and n.name == "array"
+           and any(ast.unparse(d) == "property" for d in n.decorator_list)]
+    if len(fns) != 1:
+        fail(cls, f"Charge.array property: found {len(fns)}")
+    body = [ast.unparse(st) for st in body_no_doc(fns[0])]
+    if body == ["if not self._frame.empty:\n    self._array = self.convert_df_to_array()", "return self._array"]:
+        return True
+    if body == ["if not self._frame.empty:\n    return self.convert_df_to_array()", "return self._array"]:
+        return False
+    fail(fns[0], "Charge.array: unexpected shape")
+
+
+DETECTOR_SUBCLASSES = {"CCD": "pyxel/detectors/ccd/ccd.py", "CMOS": "pyxel/detectors/cmos/cmos.py",
+                       "MKID": "pyxel/detectors/mkid/mkid.py", "APD": "pyxel/detectors/apd/apd.py"}
+
+
+def _check_subclass_empty(repo: Path) -> None:
+    for cname, rel in DETECTOR_SUBCLASSES.items():
+        cls = _class(parse(repo, rel), cname)
+        if [ast.unparse(b) for b in cls.bases] != ["Detector"]:
+            fail(cls, f"{cname} must derive from Detector")
+        own = [n for n in cls.body if isinstance(n, ast.FunctionDef) and n.name == "empty"]
+        if not own:
+            continue
+        if len(own) != 1 or [a.arg for a in own[0].args.args] != ["self", "reset"]:
+            fail(cls, f"{cname}.empty signature")
+        body = body_no_doc(own[0])
+        if not body or ast.unparse(body[0]) not in ("super().empty(reset)", "super().empty(reset=reset)"):
+            fail(own[0], f"{cname}.empty must start with super().empty(reset)")
+        for st in body[1:]:
+            for n in ast.walk(st):
+                if isinstance(n, ast.Attribute) and isinstance(n.value, ast.Name) and n.value.id == "self" and \
+                        n.attr.lstrip("_") in BUCKETS:
+                    fail(st, f"{cname}.empty touches a container of the base detector")
+                if isinstance(n, (ast.Return, ast.Raise)):
+                    fail(st, f"{cname}.empty: unexpected control flow")
 
 
 SR_PARAMS = ["times", "start_time", "non_destructive"]
@@ -297,17 +542,31 @@ def extract(repo: Path) -> dict:
     g_rp = _collect(body[1:], "times_1d", "start_time", lambda st: _calls(st, "calculate_steps"))
     # nothing after the steps computation may be validation; the remaining statements are plain stores
     always, if_reset = _empty_table(find_func(t_det, "empty", "Detector"))
+    progs = {}
+    for b, cname in BUCKET_CLASS.items():
+        if b == "Scene" and scene_fresh:
+            progs[b] = _scene_fresh(repo)
+        else:
+            progs[b] = _container_prog(repo, cname)
+    read_stores = _read_stores(repo)
+    _check_subclass_empty(repo)
     sr = _set_readout_policy(find_func(t_det, "set_readout", "Detector"))
     _check_run_pipeline_call(parse(repo, "pyxel/exposure/exposure.py"))
     return dict(g_ndarray=g_ndarray, g_ctor=g_ctor, g_set_times=g_set_times, g_set_start=g_set_start, g_rp=g_rp,
-                e_always=always, e_if_reset=if_reset, sr=sr)
+                e_always=always, e_if_reset=if_reset, progs=progs, read_stores=read_stores, sr=sr)
 
 
 def _lst(xs) -> str:
+    xs = list(xs)
     return "[" + "; ".join(xs) + "]" if xs else "nil"
 
 
+def _cprog_txt(prog) -> str:
+    return _lst(_lst(f"({c}, {_lst(ps)})" for c, ps in chain) for chain in prog)
+
+
 def render(t: dict) -> str:
+    progs = "".join(f"     e_{b.lower()} := {_cprog_txt(t['progs'][b])};\n" for b in BUCKET_CLASS)
     return (HEADER +
             "From Coq Require Import List.\nFrom PyxelV Require Import Model.Exposure.\nImport ListNotations.\n"
             "Definition src_guards : guard_table :=\n"
@@ -317,7 +576,9 @@ def render(t: dict) -> str:
             f"     g_set_start := {_lst(t['g_set_start'])};\n"
             f"     g_rp := {_lst(t['g_rp'])} |}}.\n"
             "Definition src_empty : empty_table :=\n"
-            f"  {{| e_always := {_lst(t['e_always'])}; e_if_reset := {_lst(t['e_if_reset'])} |}}.\n"
+            f"  {{| e_always := {_lst(t['e_always'])}; e_if_reset := {_lst(t['e_if_reset'])};\n"
+            f"{progs}"
+            f"     e_read_stores := {'true' if t['read_stores'] else 'false'} |}}.\n"
             f"Definition src_set_readout : sr_policy := {t['sr']}.\n")
 
 
@@ -332,4 +593,8 @@ FALLBACK = render(dict(
     g_set_times=["GNdim1", "GNonEmpty", "GFirstNonZero", "GStartLtFirst"],
     g_set_start=["GStartLtFirst"],
     g_rp=["GNdim1", "GFirstNonZero", "GStartLtFirst", "GIncreasing"],
-    e_always=["Scene", "Photon", "Charge", "Signal", "Image"], e_if_reset=["Pixel"], sr="SRAlwaysNew"))
+    e_always=["Scene", "Photon", "Charge", "Signal", "Image"], e_if_reset=["Pixel"],
+    progs=dict(Scene=[[("CTrue", ["PScene"])]], Photon=[[("CTrue", ["PPhoton"])]],
+               Charge=[[("CHolds PChargeFrame", ["PChargeFrame"])], [("CTrue", ["PChargeArr"])]],
+               Pixel=[[("CTrue", ["PPixel"])]], Signal=[[("CTrue", ["PSignal"])]], Image=[[("CTrue", ["PImage"])]]),
+    read_stores=True, sr="SRAlwaysNew"))
